@@ -24,7 +24,8 @@ def evaluate(P, binp, cases, tag="main"):
     o.cases = {c["id"]: c for c in cases}
     results, died = V.run_harness(binp, P.engine, cases, timeout=getattr(P, "harness_timeout", 900),
                                   shards=getattr(P, "harness_shards", 16),
-                                  extra_env=getattr(P, "harness_env", None))
+                                  extra_env=getattr(P, "harness_env", None),
+                                  one_per_process=getattr(P, "harness_one_per_process", False))
     o.results = results
     for rc, err in died:
         o.problems.append("harness worker exited rc=%s: %s" % (rc, err))
@@ -141,7 +142,7 @@ def main(P, argv):
             proof["problems"].append("coqchk failed: " + chk["out"])
 
     # 2. harness
-    hb = V.build_harness()
+    hb = V.build_harness(crate=getattr(P, "harness_crate", "harness"), binname=getattr(P, "harness_binname", "vh"))
     log("[%s] harness build: ok=%s (%.1fs)" % (prop, hb["ok"], hb["wall_s"]))
 
     known = V.known_findings(prop)
